@@ -489,10 +489,10 @@ func (r *c14Runner) cleanLogin(cw *c14World, p *vfProxy, c c14Case, steps []stri
 	b := vfNewBrowser("")
 	_, cb, err := b.Login(p, id, "/")
 	r.run.Count("clean_logins", 1)
-	if err != nil {
-		// "stuck" means it stays broken: one more attempt
-		r.run.Count("clean_login_second_attempts", 1)
-		time.Sleep(10 * time.Millisecond)
+	for try := 0; err != nil && try < 3; try++ {
+		// "stuck" means it stays broken: bounded further attempts
+		r.run.Count("clean_login_further_attempts", 1)
+		time.Sleep(50 * time.Millisecond)
 		b = vfNewBrowser("")
 		_, cb, err = b.Login(p, id, "/")
 	}
@@ -554,7 +554,9 @@ func (r *c14Runner) loginCase(cw *c14World, c c14Case) {
 	b := vfNewBrowser("")
 	l, err := b.StartLogin(p, id, "/")
 	if err != nil {
-		run.T.Fatalf("c14: start: %v", err)
+		run.Eval("")
+		run.Inconclusive(fmt.Sprintf("rig: login could not be started: %v", err))
+		return
 	}
 	cx.Nonce = l.AuthReq.Params.Get("nonce")
 	keys0 := cw.redisKeys()
@@ -801,7 +803,7 @@ func (cw *c14World) makeStale(t testing.TB, store string, shortLived bool) *c14S
 		}
 	}
 	if err != nil {
-		t.Fatalf("c14: login for a stale session: %v", err)
+		return nil // rig trouble; the case that needs this session is counted as inconclusive
 	}
 	st.idToken, st.at = cw.lastTokens()
 	return st
@@ -819,6 +821,11 @@ func (r *c14Runner) refreshCase(cw *c14World, c c14Case) {
 	}
 	st := cw.stale[key][0]
 	cw.stale[key] = cw.stale[key][1:]
+	if st == nil {
+		run.Eval("")
+		run.Inconclusive("rig: the ordinary login that prepares a stale session failed")
+		return
+	}
 	if c.Flow == "refresh-old-token-expired" {
 		if d := time.Until(st.expiresAt.Add(1200 * time.Millisecond)); d > 0 {
 			time.Sleep(d) // precondition (the old ID token has expired), not a verdict
